@@ -4,6 +4,7 @@ from __future__ import annotations
 import ast
 
 from .. import kernelspec
+from ..dataflow import flow_of
 from ..model import AnalysisError, FuncInfo, Program, body_walk, calls_in_body, dotted, norm, parent
 from ..poly import Poly, PolyEnv
 from ..report import Result
@@ -187,9 +188,24 @@ def check_push_data(prog: Program, res, rule: str) -> None:
             b = prog.bind_args(c, k)
             ok = norm(b.get("array", ast.Constant(None))) == "array" and norm(b.get("moments", ast.Constant(None))) == "self._moments" \
                 and norm(b.get("startflag", ast.Constant(None))) == "start_index"
-            br = parent(parent(c))
-            okbr = isinstance(br, ast.If) and norm(br.test) == "mode == 'basic'" and (
-                (nm == "compute_online_moments_basic") == any(c is x for s in br.body for x in ast.walk(s)))
+            from ..pathcond import path_conditions
+            pc = path_conditions(flow_of(pd))
+
+            def mode_is(value: str, truth: bool):
+                def pred(e, pol):
+                    if not (isinstance(e, ast.Compare) and len(e.ops) == 1):
+                        return False
+                    l, r = e.left, e.comparators[0]
+                    names = {norm(l), norm(r)}
+                    if names != {"mode", repr(value)}:
+                        return False
+                    return (isinstance(e.ops[0], ast.Eq) and pol == truth) or (isinstance(e.ops[0], ast.NotEq) and pol != truth)
+                return pred
+
+            if nm == "compute_online_moments_basic":
+                okbr = pc.truth(c, mode_is("basic", True)) is not None
+            else:
+                okbr = pc.truth(c, mode_is("basic", False)) is not None or pc.truth(c, mode_is("full", True)) is not None
             key = f"push_data:{nm}"
             if ok and okbr:
                 res.ok(rule, pd, c, f"{nm}(array, self._moments, startflag=start_index) on the {want[nm]} branch", key=key)
